@@ -438,6 +438,7 @@ def spanline_rule(repo, res, rule="SPANLINE"):
         return
     first, second = fn.params[0]["name"], fn.params[1]["name"]
     pm = A.parent_map(fn.body)
+    envs = A.collect_envs(fn)
 
     def on(n, who):
         return n["k"] == "MethodCall" and n["recv"]["k"] == "Path" and n["recv"]["path"] == who
@@ -445,12 +446,21 @@ def spanline_rule(repo, res, rule="SPANLINE"):
     def same_line_test(c):
         if c["k"] != "Binary" or c["op"] not in ("==", "!=", ">", "<"):
             return None
-        sides = [c["left"], c["right"]]
-        if all(x["k"] == "MethodCall" and x["method"] == "location_line" for x in sides) and {x["recv"].get("path") for x in sides} == {first, second}:
+        # each side is `<param>.location_line()`, written in place or through a local
+        who = []
+        for x in (c["left"], c["right"]):
+            p = A.resolve(x, envs.get(id(x)) or envs.get(id(c)))
+            while p[0] in ("cast", "ref", "deref"):
+                p = p[1]
+            if p[0] == "mcall" and p[1] == "location_line" and P.peel(p[2])[0] == "param":
+                who.append(P.peel(p[2])[2])
+            else:
+                return None
+        if set(who) == {first, second}:
             if c["op"] in ("==", "!="):
                 return c["op"]
             # `later.line > earlier.line` / `earlier.line < later.line`: the else branch is the same-line case (later >= earlier always)
-            if (c["op"] == ">" and c["left"]["recv"].get("path") == second) or (c["op"] == "<" and c["left"]["recv"].get("path") == first):
+            if (c["op"] == ">" and who[0] == second) or (c["op"] == "<" and who[0] == first):
                 return "!="
         return None
 
